@@ -1,6 +1,6 @@
 #!/bin/bash
 # re-run stored seeded changes against the current checks:  tools/reseed.sh C02-1 C02-2 ...
-cd /verif
+cd "$(dirname "$0")/.."
 for name in "$@"; do
   P=${name%%-*}
   cp seeded/$name/patch.diff /tmp/_rs_patch.diff; cp seeded/$name/demo.py /tmp/_rs_demo.py
